@@ -491,7 +491,7 @@ def check(pid, tier, replay=None):
             "axioms used by the property theorems: " + ", ".join(sorted({a for v in thms.values() for a in v}) or ["none"]),
             "no native_decide / bv_decide / sorry / own axioms (source audit + #print axioms on every theorem)",
             "hand-written Lean model tied to the Rust code by the correspondence run of this check (generator quality bounds what it sees)",
-            "tools/gen_constants.py (regex extraction of constants from /repo into Copia/Gen/Constants.lean)", "tools/rs2lean.py (translator: Fingerprint::same, reconcile_path, needs_transfer, cas_decide → Copia/Gen/Decisions.lean; proved equal to the hand models in Lemmas/GenEq)", "tools/rs2lean_arith.py (translator: both new/roll/push/digest of src/checksum.rs → Copia/Gen/Checksum.lean; proved equal to Model/Checksum in Lemmas/GenEqChecksum)", "tools/rs2lean_do.py (translator, statement by statement into Lean `do` blocks: reconcile (reconcile.rs) → Copia/Gen/LoopsReconcile.lean; build_plan, is_excluded, glob_match (plan.rs) → Copia/Gen/LoopsPlan.lean; patch of both engines and Delta::validate (seek + read_exact = a bounds test and a slice of the basis, write_all = append to the output, hasher.update = append to the hashed bytes), the scan loops of sync.rs::delta and async_sync.rs::delta (from `let mut pos = 0usize;` to the tail literal) → Copia/Gen/LoopsDelta.lean (SignatureTable lookups interpreted as filter-by-weak / first-equal-strong over the block list, Delta::push_* as the model's accumulator operations); copy_atomic and Archive::save as lists of file-system calls (→ Copia/Gen/LoopsCrash.lean), deliver_local / deliver_pull as lists of delivery calls (→ LoopsDeliver.lean), safe_join (→ LoopsHub.lean), the push loop of hub_sync (→ LoopsHubSync.lean); apply and the section of run_bisync from `let mut common = base;` to `arc.save(&apath)?;` (bidir.rs) → Copia/Gen/LoopsBidir.lean, over a modelled world (the two trees, the `common` map, the archive): copy_atomic = copy-or-fail, symlink_metadata = lookup, remove_file = delete, arc.save = record; proved equal to Model/Reconcile and Model/Plan in Lemmas/GenEqLoops*; interprets BTreeMap as a key-ordered association list, sort as mergeSort over the key order, `while` as a fuel-bounded loop returning none when the fuel runs out)",
+            "tools/gen_constants.py (regex extraction of constants from /repo into Copia/Gen/Constants.lean)", "tools/rs2lean.py (translator: Fingerprint::same, reconcile_path, needs_transfer, cas_decide → Copia/Gen/Decisions.lean; proved equal to the hand models in Lemmas/GenEq)", "tools/rs2lean_arith.py (translator: both new/roll/push/digest of src/checksum.rs → Copia/Gen/Checksum.lean; proved equal to Model/Checksum in Lemmas/GenEqChecksum)", "tools/rs2lean_do.py (translator, statement by statement into Lean `do` blocks: reconcile (reconcile.rs) → Copia/Gen/LoopsReconcile.lean; build_plan, is_excluded, glob_match (plan.rs) → Copia/Gen/LoopsPlan.lean; patch of both engines and Delta::validate (seek + read_exact = a bounds test and a slice of the basis, write_all = append to the output, hasher.update = append to the hashed bytes), the scan loops of sync.rs::delta and async_sync.rs::delta (from `let mut pos = 0usize;` to the tail literal) → Copia/Gen/LoopsDelta.lean (the scans' SignatureTable calls are written as filter-by-weak / first-equal-strong over the block list; SignatureTable::from_signature, find_match and has_weak_match are themselves translated — FxHashMap<u32, Vec<usize>> as an association list weak hash ↦ positions — and proved to be exactly those lookups in Lemmas/GenEqLoopsT; Delta::push_* as the model's accumulator operations); copy_atomic and Archive::save as lists of file-system calls (→ Copia/Gen/LoopsCrash.lean), deliver_local / deliver_pull as lists of delivery calls (→ LoopsDeliver.lean), safe_join (→ LoopsHub.lean), the push loop of hub_sync (→ LoopsHubSync.lean); apply and the section of run_bisync from `let mut common = base;` to `arc.save(&apath)?;` (bidir.rs) → Copia/Gen/LoopsBidir.lean, over a modelled world (the two trees, the `common` map, the archive): copy_atomic = copy-or-fail, symlink_metadata = lookup, remove_file = delete, arc.save = record; proved equal to Model/Reconcile and Model/Plan in Lemmas/GenEqLoops*; interprets BTreeMap as a key-ordered association list, sort as mergeSort over the key order, `while` as a fuel-bounded loop returning none when the fuel runs out)",
         ] + cfg.get("trusted_base", []),
         "theorems": {k: v for k, v in sorted(thms.items())},
         "evaluations": corr.get("evaluations", 0),
